@@ -15,7 +15,7 @@
      squash li l         l without its entry of level li, the levels above li renumbered down by one
      up_level li j       position in the original tree of level j of the tree without level li *)
 From Coq Require Import ZArith List Bool Permutation Lia.
-From CTM Require Import Base.Sx Base.SortX Model.Tree Proofs.TreeP.
+From CTM Require Import Base.Sx Base.SortX Model.Tree Proofs.TreeP Proofs.TreeBackfillP.
 Import ListNotations.
 Open Scope Z_scope.
 
@@ -256,6 +256,16 @@ Theorem c10_drop_leaf_refuted : exists t,
 Proof. exact drop_leaf_refuted. Qed.
 Print Assumptions c10_drop_leaf_refuted.
 
+(* the descendant leaves of every remaining node survive any sequence of drops: a node of the
+   reduced tree has the same leaves below it as it had in the original tree *)
+Theorem c10_drop_keeps_leaf_lists : forall lis t t', validate t = true -> wf t -> drops_ok (length t) lis ->
+  drop_levels t lis = TOk t' ->
+  forall k x l, (k < length t')%nat ->
+    (In l (leaves_of t' k x) <-> In l (leaves_of t (up_levels lis k) x)).
+Proof. exact drop_levels_leaves. Qed.
+Print Assumptions c10_drop_keeps_leaf_lists.
+
+
 (* flatten: never raises on an accepted tree; the result is the leaf level alone (leaf set and
    rows kept, no ancestors left), is accepted, cannot be reduced further, is a fixed point of
    flatten, and is what flatten gives after any transformation that keeps the leaf level *)
@@ -281,6 +291,37 @@ Theorem c10_roundtrip_preserves : forall t, validate t = true -> wf t ->
   is_equal_to t (drop_cells t) = true /\ is_equal_to t t = true.
 Proof. exact roundtrip_preserves. Qed.
 Print Assumptions c10_roundtrip_preserves.
+
+(* ====================================================================== backfill (used by C01 / C17) *)
+
+(* backfill_assignments on one cell's record (per level: the node stored, or nothing).  Whatever
+   it returns keeps the levels that were present and gives every filled level the recorded
+   parent of the node one level down in the result; the only way to fail is a KeyError *)
+Theorem c10_backfill_spec : forall (t : tree) rec, length rec = length t ->
+  (forall rec', backfill t rec = TOk rec' ->
+     length rec' = length rec /\
+     (forall j a, nth j rec None = Some a -> nth j rec' None = Some a) /\
+     (forall j, (S j < length t)%nat -> nth j rec None = None ->
+        nth j rec' None = match nth (S j) rec' None with
+                          | Some c => parent_of (nth j t []) c
+                          | None => None
+                          end) /\
+     nth (length t - 1) rec' None = nth (length t - 1) rec None) /\
+  (forall c, backfill t rec = TErr c -> c = E_KEY).
+Proof. exact backfill_spec. Qed.
+Print Assumptions c10_backfill_spec.
+
+(* on an accepted tree, a record holding a leaf and -- at any subset of the other levels -- that
+   leaf's true ancestors (what mapping onto a flattened / reduced tree leaves behind) never
+   raises and comes back holding the leaf's ancestor at EVERY level *)
+Theorem c10_backfill_fills : forall t rec l, validate t = true -> wf t -> length rec = length t ->
+  In l (nodes (leaf_level t)) ->
+  nth (length t - 1) rec None = Some l ->
+  (forall k a, (k < length t)%nat -> nth k rec None = Some a -> ancestor_at t (length t - 1) l k = Some a) ->
+  exists rec', backfill t rec = TOk rec' /\ length rec' = length t /\
+    forall k, (k < length t)%nat -> nth k rec' None = ancestor_at t (length t - 1) l k.
+Proof. exact backfill_fills. Qed.
+Print Assumptions c10_backfill_fills.
 
 (* ====================================================================== non-vacuity *)
 (* a 3-level tree: two classes, three subclasses, five clusters (one without cells), 5 rows;
@@ -309,6 +350,19 @@ Example c10_ex_transform :
   drop_leaf_level ex3 = TOk [ nth 0 ex3 []; [(10, [2; 1; 0]); (12, [3; 4]); (11, [])] ] /\
   leaf_rows (drop_cells ex3) = [] /\ nodes (leaf_level (drop_cells ex3)) = [20; 21; 22; 23; 24].
 Proof. vm_compute. repeat split. Qed.
+Example c10_ex_backfill :
+  backfill ex3 [None; None; Some 21] = TOk [Some 0; Some 10; Some 21] /\          (* after flatten *)
+  backfill ex3 [Some 1; None; Some 24] = TOk [Some 1; Some 12; Some 24] /\        (* after drop_level 1 *)
+  backfill ex3 [None; Some 12; None] = TOk [Some 1; Some 12; None] /\             (* no leaf stored *)
+  backfill ex3 [None; None; Some 99] = TErr E_KEY /\                               (* not a node *)
+  (forall k a, (k < 3)%nat -> nth k [Some 1; None; Some 24] None = Some a -> ancestor_at ex3 2 24 k = Some a) /\
+  leaves_of ex3 0 1 = [23; 24] /\
+  (exists t', drop_levels ex3 [1%nat] = TOk t' /\ leaves_of t' 0 1 = [23; 24]).
+Proof.
+  repeat (split; [vm_compute; reflexivity|]). split.
+  - intros k a Hk. destruct k as [|[|[|k]]]; cbn [nth]; intros E; inversion E; subst; try reflexivity. lia.
+  - split; [reflexivity|]. eexists. split; vm_compute; reflexivity.
+Qed.
 (* a mutant of each rejected class, and the accepted duplicate child, on ex3 *)
 Example c10_ex_mutants :
   validate (replace_nth 0 (add_child (nth 0 ex3 []) 1 99) ex3) = false /\      (* dangling *)
